@@ -7,8 +7,8 @@ from . import base
 ID = 'C20'
 LEVEL = 'fault_enumeration'
 PLAN = {
-    'quick': [('synth_exhaustive', 1400), ('synth_multi', 1400), ('shipped_exhaustive', 16), ('shipped_multi', 96)],
-    'thorough': [('synth_exhaustive', 50000), ('synth_multi', 50000), ('shipped_exhaustive', 480), ('shipped_multi', 4000)],
+    'quick': [('synth_exhaustive', 1400), ('synth_multi', 1400), ('shipped_exhaustive', 16), ('shipped_multi', 96), ('synth_extended', 1200)],
+    'thorough': [('synth_exhaustive', 50000), ('synth_multi', 50000), ('shipped_exhaustive', 480), ('shipped_multi', 4000), ('synth_extended', 40000)],
 }
 DEADLINE = {'quick': 220, 'thorough': 3300}
 PROBES = ['interrupted-mid-session', 'eof-mid-session', 'ctrlc-during-retry', 'session-aborted-by-unsupported-form',
@@ -169,6 +169,9 @@ def make_case(engine, seed):
 
 def run_one(engine, seed, acc, tier):
     case = make_case(engine, seed)
+    if engine == 'synth_extended':
+        extended_observation(case, seed, acc)      # observations only, never a violation
+        return
     fs = evaluate(case, engine, acc)
     seen = set()
     for f in fs:
@@ -200,6 +203,8 @@ def coverage(accs, total):
             'sessions': total.runs, 'interrupted_sessions': total.counters.get('interrupted_sessions', 0),
             'exhaustive': False,
             'exhaustive_note': 'exhaustive over the interruption point k and kind {Ctrl-C, EOF} for every session of the *_exhaustive engines; sessions themselves are sampled',
+            'extended_observations': {k: v for k, v in sorted(total.counters.items()) if k.startswith('extended:')},
+            'extended_observations_note': 'disk errors during the write-back itself and asynchronous interrupts inside solve() are outside the statement; counted, never flagged',
             'real_vs_stub': base.REAL_VS_STUB}
 
 
@@ -214,3 +219,90 @@ MANIFEST = {
     'note': ('Exhaustive over crash points per session, sampled over sessions. Faults during the write-back itself (torn write, '
              'ENOSPC, second Ctrl-C) are outside the statement and not demanded.'),
 }
+
+
+# ----------------------------------------------------------------------------------
+# extended faults - OBSERVATIONS ONLY (DESIGN.md 2.4): disk errors during the write-back itself and an asynchronous
+# interrupt anywhere inside solve().  C20's statement enumerates its interruption kinds and these are not among
+# them, so nothing here ever produces a VIOLATION; the counts go into the evidence as `extended_observations`.
+# ----------------------------------------------------------------------------------
+class _FailingFile(object):
+    def __init__(self, real, budget, kind):
+        self.real, self.budget, self.kind = real, budget, kind
+
+    def write(self, text):
+        if len(text) > self.budget:
+            self.real.write(text[:self.budget])
+            self.budget = 0
+            import errno
+            raise OSError(errno.ENOSPC if self.kind == 'enospc' else errno.EIO, 'injected write failure')
+        self.budget -= len(text)
+        return self.real.write(text)
+
+    def __enter__(self):
+        return self
+
+    def __exit__(self, *a):
+        self.real.close()
+        return False
+
+
+def extended_observation(case, seed, acc):
+    import builtins
+    import sys
+    from habutax import inputs as hb_inputs
+    rng = core.Rng(core.h64('c20x', seed))
+    world = synth_world(case)
+    init = initial_text(case, 'synth')
+    path = os.path.join(simrun.scratch_dir(), 'c20x_in.ini')
+    crash.write_text(path, init)
+    before = crash.parse_ini(init) if init is not None else {}
+    kind = rng.pick(['enospc', 'torn', 'async-interrupt'])
+    state = {'n': 0}
+    try:
+        if kind in ('enospc', 'torn'):
+            budget = rng.pick([0, 5, 20, 60, 200])
+
+            def failing_open(file, mode='r', *a, **k):
+                f = builtins.open(file, mode, *a, **k)
+                if 'w' in mode and str(file) == path:
+                    return _FailingFile(f, budget, kind)
+                return f
+            hb_inputs.open = failing_open
+            run = crash.session(world, path, {'prompt': True, 'writeback': True, 'solution': False})
+        else:
+            fire_at = rng.pick([50, 200, 800, 2500])
+
+            def tracer(frame, event, arg):
+                if event == 'line' and 'habutax' in frame.f_code.co_filename and 'simtax' not in frame.f_code.co_filename:
+                    state['n'] += 1
+                    if state['n'] == fire_at:
+                        raise KeyboardInterrupt()
+                return tracer
+            sys.settrace(tracer)
+            try:
+                run = crash.session(world, path, {'prompt': True, 'writeback': True, 'solution': False})
+            except KeyboardInterrupt:
+                # landed in habutax code the harness itself calls after main() returned (e.g. solution()): not a session event
+                acc.count('extended:async-interrupt:landed-outside-the-session')
+                return
+            finally:
+                sys.settrace(None)
+    except (core.RunTimeout, core.BudgetExceeded):
+        acc.count(f'extended:{kind}:did-not-finish')
+        return
+    finally:
+        if hasattr(hb_inputs, 'open') and 'open' in vars(hb_inputs):
+            del hb_inputs.open
+        sys.settrace(None)
+    fired = (kind != 'async-interrupt') or state['n'] >= 1
+    try:
+        with open(path) as f:
+            after = crash.parse_ini(f.read())
+        intact = all(after.get(k) == v for k, v in before.items())
+        kept = all(after.get((n.rsplit('.', 1)[0], n.rsplit('.', 1)[1])) == t.strip() for n, t in run.answers.items())
+        acc.count(f'extended:{kind}:' + ('file-intact-and-answers-kept' if intact and kept else
+                                         'prior-values-kept-answers-lost' if intact else 'prior-values-lost'))
+    except Exception:
+        acc.count(f'extended:{kind}:file-unreadable')
+    acc.count(f'fault:extended-{kind}')
